@@ -483,6 +483,58 @@ pub fn h_clear(n: usize, tab: [u8; 8]) {
 }
 
 
+// ---------------------------------------------------------------------------
+// bounded histories from the empty cache (cross-check that the states reached
+// through the public API satisfy the invariant the step harnesses start from)
+// ---------------------------------------------------------------------------
+/// ops: 0 insert, 1 remove, 2 set_max_size, 3 mutate, 4 get, 5 try_insert (keys in 0..2, sizes < 2^hb, symbolic limit)
+pub fn h_history(ops: &[u8], hb: u32) {
+    let max: usize = sym::any();
+    let mut c: C = LruCache::with_capacity_and_hasher(max, 7, TabBuild { tab: tab_of(6) });
+    tm::expect_no_grow(true);
+    let mut i = 0;
+    while i < ops.len() {
+        let k = sym_key(2);
+        match ops[i] {
+            0 => {
+                let h = sym_heap(hb);
+                let r = c.insert(Key::new(k, 32 + 2 * i as u8), Val { heap: h, id: 33 + 2 * i as u8 });
+                vassert!([C10], r.is_err() == (esz(h) > c.max_size()), "insert fails exactly when the entry exceeds max_size");
+                std::mem::forget(r);
+            }
+            1 => {
+                std::mem::forget(c.remove(&k));
+            }
+            2 => {
+                let m: usize = sym::any();
+                c.set_max_size(m);
+            }
+            3 => {
+                let nh = sym_heap(hb);
+                let r = c.mutate(&k, |v: &mut Val| { v.heap = nh; });
+                std::mem::forget(r);
+            }
+            4 => {
+                let _ = c.get(&k);
+            }
+            _ => {
+                let h = sym_heap(hb);
+                let r = c.try_insert(Key::new(k, 32 + 2 * i as u8), Val { heap: h, id: 33 + 2 * i as u8 });
+                std::mem::forget(r);
+            }
+        }
+        // the invariant of DESIGN.md 3.3 holds after every step of a real history
+        inv(&c, 3);
+        vassert!([C01], c.current_size() <= c.max_size(), "current_size() exceeds max_size() after a step of a history from the empty cache");
+        vassert!([C04, C07], c.len() <= 2, "more entries than distinct keys");
+        i += 1;
+    }
+    vcover!(c.len() == 2, "history: two entries held at the end");
+    vcover!(c.len() == 0, "history: empty at the end");
+    std::mem::forget(c);
+    vend!();
+}
+
 // tab_of(6) = [0,1,0,1] "mixed" (two collision classes); tab_of(0) = all keys collide; tab_of(14) = all distinct.
 // Heavy operations are split by concrete key (kN = key N; key n is the absent one): one query per key.
 harnesses! {
@@ -547,5 +599,9 @@ harnesses! {
     retain_n3_mixed [5] => h_retain(3, tab_of(6)); //@ q=C01,C02,C04,C05,C06,C07,C15,C20 to=900
     retain_n2_collide [4] => h_retain(2, tab_of(0)); //@ q=C15 t=C04,C07 to=900
     retain_n4_mixed [6] => h_retain(4, tab_of(6)); //@ t=C15,C05,C06 to=1200
+    history_ins_ins [4] => h_history(&[0, 0], 40); //@ t=C01,C02,C07 to=1800
+    history_ins_ins_mut [4] => h_history(&[0, 0, 3], 40); //@ t=C01,C02,C07 to=3000 solver=portfolio
+    history_ins_ins_setmax [4] => h_history(&[0, 0, 2], 40); //@ t=C01,C02,C07 to=3000 solver=portfolio
+    history_ins_tryins_rem [4] => h_history(&[0, 5, 1], 40); //@ t=C01,C02,C07 to=3000 solver=portfolio
     clear_n3_mixed [5] => h_clear(3, tab_of(6)); //@ q=C02,C06,C07,C20 t=C01,C04 to=600
 }
